@@ -17,7 +17,10 @@ def explore(core, rng, tier, seed, search=False):
     s = rng.randrange(1 << 30)
     cmds = [["sched", "km", "exhaustive", 1, lim, 2, "api"], ["sched", "krw", "exhaustive", 1, lim, 2, "api"],
             ["sched", "km", "random", s, n, 2, "api"], ["sched", "krw", "random", s + 1, n, 2, "api"]]
-    return traceprop.explore(core, ID, cmds, min_events=8)
+    # native, truly parallel runs (no controlled scheduler): first uses of never-seen keys and ClearKey racing lock-free lookups of other keys;
+    # also under the race detector (a crash such as "concurrent map read and map write" is a failed acquisition of an unrelated key)
+    cmds.append(["kmstress", rng.randrange(1 << 30), 40 if tier == "quick" else 2000])
+    return traceprop.explore(core, ID, cmds, min_events=8, race_cmds=[["kmstress", rng.randrange(1 << 30), 40 if tier == "quick" else 1000]])
 
 
 def replay(core, obj, path):
